@@ -336,6 +336,30 @@ def check_dfa(ctx: Ctx, d: DFA, origin: str, *, uniform: bool = False, light: bo
 
 
 # --------------------------------------------------------------- corpus
+def big_lengths(ctx: Ctx):
+    """random_word / count_words_of_length for lengths whose word counts exceed every float
+    (2**1100 words of length 1100 over two symbols): Python ints are exact, so the answer must
+    still be an accepted word of that length / the exact count.  Oracle only (no model call)."""
+    cases = [
+        ("universal{a,b}", DFA.universal_language({"a", "b"}), 1100, lambda k: 2 ** k),
+        ("no 'bb'", DFA.from_substring({"a", "b"}, "bb", contains=False), 1600, None),
+        ("4 symbols", DFA.universal_language({"a", "b", "c", "d"}), 620, lambda k: 4 ** k),
+    ]
+    for name, d, k, cnt in cases:
+        ctx.case(("big", name, k))
+        ctx.stat("big_length_case")
+        keep = d.copy()
+        r = call(lambda: keep.random_word(k, seed=ctx.seed + 7))
+        if r[0] != "ok" or len(r[1]) != k or not keep.accepts_input(r[1]):
+            fail(ctx, d, "random_word", dict(k=k, seed=ctx.seed + 7),
+                 f"random_word({k}) on {name} = {r[0]} {r[1] if r[0] == 'err' else 'a word of length ' + str(len(r[1]))}; "
+                 f"expected an accepted word of length {k}")
+        if cnt is not None:
+            c = call(lambda: keep.count_words_of_length(k))
+            if c != ("ok", cnt(k)):
+                fail(ctx, d, "count_words_of_length", dict(k=k), f"count_words_of_length({k}) on {name} is not the exact count")
+
+
 def corpus():
     ab = {"a", "b"}
     yield "F3_empty_language", DFA.empty_language(ab)
@@ -375,6 +399,7 @@ def run(ctx: Ctx):
         check_dfa(ctx, d, "corpus", uniform=True)
         if hanging():
             return
+    big_lengths(ctx)
     # bounded-exhaustive
     for n_states in (1, 2):
         for d in gen.all_dfas(n_states, ("a", "b")):
